@@ -509,16 +509,14 @@ impl Parser<'_, '_> {
             Token::Float { span, value } => {
                 Ok(Some(TulispValue::Float { value }.into_ref(Some(span))))
             }
-            Token::Ident { span, value } => Ok(Some(match self.ctx.intern_soft(&value) {
-                Some(vv) => vv.with_span(Some(span)),
-                None => {
-                    if value == "t" {
-                        TulispValue::T.into_ref(Some(span))
-                    } else if value == "nil" {
-                        TulispValue::Nil.into_ref(Some(span))
-                    } else {
-                        self.ctx.intern(&value).with_span(Some(span))
-                    }
+            Token::Ident { span, value } => Ok(Some(if value == "t" {
+                TulispValue::T.into_ref(Some(span))
+            } else if value == "nil" {
+                TulispValue::Nil.into_ref(Some(span))
+            } else {
+                match self.ctx.intern_soft(&value) {
+                    Some(vv) => vv.with_span(Some(span)),
+                    None => self.ctx.intern(&value).with_span(Some(span)),
                 }
             })),
             Token::ParserError(err) => Err(Error::new(
